@@ -45,10 +45,13 @@ def mkv(v):
         return chr(97 + v[1] % 26) * 300
     if type(v) is tuple and len(v) == 2 and v[0] == 'P':
         return {'n': v[1], 'pad': 'p' * 300}
+    if type(v) is tuple and len(v) == 2 and v[0] == 'U':
+        return ('\u00e9\u4e2d\U0001f600'[v[1] % 3]) * 300
     return v
 
 
 vals = st.one_of(
+    st.tuples(st.just('U'), st.integers(0, 2)),
     st.integers(0, 9),
     st.tuples(st.just('B'), st.integers(0, 255)),
     st.tuples(st.just('B'), st.integers(0, 255)),
